@@ -22,9 +22,9 @@ from . import pipe_tlc, pipe_worker, pipe_inputs
 
 LEVEL = "model_checking"
 
-QUICK = dict(bytes=500, soup=700, gram=1600, nest=60, imports=320, mut=1900, trunc_per_file=18, sent=300,
+QUICK = dict(bytes=400, soup=500, gram=900, valid=1100, nest=60, imports=300, mut=1800, trunc_per_file=16, sent=300,
              cli=20, maxg=1, mc_compiles=1, workers=12)
-THOROUGH = dict(bytes=6000, soup=10000, gram=40000, nest=400, imports=6000, mut=60000, trunc_per_file=10 ** 9, sent=6000,
+THOROUGH = dict(bytes=6000, soup=10000, gram=30000, valid=40000, nest=400, imports=6000, mut=60000, trunc_per_file=10 ** 9, sent=6000,
                 cli=120, maxg=2, mc_compiles=2, workers=14)
 
 
@@ -34,10 +34,8 @@ def plan_jobs(cfg, seed):
     mains = pipe_inputs.corpus_mains(corpus)
     for i in range(0, len(mains), 6):
         jobs.append({"op": "c16", "fam": "corpus", "seed": seed, "names": mains[i:i + 6]})
-    for fam, chunk in (("bytes", 50), ("soup", 50), ("gram", 40), ("nest", 10), ("imports", 20), ("mut", 25), ("sent", 50)):
+    for fam, chunk in (("bytes", 50), ("soup", 50), ("gram", 40), ("valid", 40), ("nest", 10), ("imports", 20), ("mut", 25)):
         n = cfg[fam]
-        if fam == "sent" and not os.path.exists(os.path.join(VERIF, "harness", "grammar_gen.py")):
-            continue
         for s in range(0, n, chunk):
             jobs.append({"op": "c16", "fam": fam, "seed": seed, "start": s, "count": min(chunk, n - s)})
     # truncations at token boundaries: a stride per file such that about trunc_per_file points are hit
@@ -169,7 +167,11 @@ def report_verdicts(chk, verdicts, seed, payload_for):
 
 
 def run(chk, only=None):
-    cfg = QUICK if chk.tier == "quick" else THOROUGH
+    cfg = dict(QUICK if chk.tier == "quick" else THOROUGH)
+    scale = float(os.environ.get("VERIF_C16_SCALE", "1") or 1)     # development aid: shrink the input families
+    if scale != 1:
+        for k in ("bytes", "soup", "gram", "valid", "nest", "imports", "mut", "sent", "cli", "trunc_per_file"):
+            cfg[k] = max(1, int(cfg[k] * scale))
     seed = chk.seed
     want = lambda p: only is None or p in only
     chk.rule = ("inputs are generated without regard to validity (random bytes/code points, token soup, grammar-shaped "
@@ -200,9 +202,31 @@ def run(chk, only=None):
                                                       for k, s in enumerate(scens[i:i + 60])]})
             chk.extra["scenarios_replayed"] = nscen
         corpus = None
+        sent_texts = {}
         if want("fuzz"):
             fj, corpus = plan_jobs(cfg, seed)
             jobs += fj
+            # sentences of the real grammar, derived by TLC (the grammar builder's SentenceGen), rendered
+            # with pooled identifiers
+            try:
+                from . import grammar_gen
+            except Exception:
+                grammar_gen = None
+            if grammar_gen is not None and cfg["sent"]:
+                try:
+                    cases = grammar_gen.generate(seed, cfg["sent"], 60, scratch=sc, mutants=1, procs=pipe_tlc.max_par(4),
+                                                 add_tlc=lambda r: chk.add_tlc(r, part="sentence-generator"))
+                except Exception as e:  # the generator belongs to another check: its trouble is not ours
+                    cases = []
+                    chk.extra["sentence_generator_unavailable"] = repr(e)[:200]
+                items = []
+                for i, c in enumerate(cases):
+                    r = pipe_inputs.rng_for(seed, "sent", i)
+                    tid = "sent:%d:%s" % (i, c["kind"])
+                    sent_texts[tid] = pipe_inputs.render_sentence(r, c["w"])
+                    items.append({"tid": tid, "text": sent_texts[tid]})
+                for i in range(0, len(items), 50):
+                    jobs.append({"op": "c16", "fam": "texts", "seed": seed, "items": items[i:i + 50]})
         streams = []
         cli_events = []
         t0 = time.time()
@@ -286,6 +310,8 @@ def run(chk, only=None):
                 return cli_inputs[tid]
             if tid.startswith("scen:"):
                 return {"scenario": tid}
+            if tid in sent_texts:
+                return {"tid": tid, "main": "m.emb", "text": sent_texts[tid], "other_files": []}
             try:
                 inp = pipe_worker.regenerate_input(tid, seed)
             except Exception as e:  # noqa
